@@ -496,7 +496,7 @@ func ruleR17_4(w *World, r *Report) {
 	if fn := u.Fn(pMongo, "MongoCollections", "PurgeAllDocumentsOfCollection"); fn != nil {
 		ok := false
 		for _, f2 := range withClosures(fn) {
-			for _, c := range callsNamed(f2, "purgeAllDocumentsOfCollectionNum") {
+			for _, c := range callsNamed(flatRoot(f2), "purgeAllDocumentsOfCollectionNum") {
 				a := c.Common().Args
 				ok = strings.HasSuffix(canonName(a[len(a)-1]), "#0.Num") && strings.Contains(canonName(a[len(a)-1]), "GetCollection(")
 			}
